@@ -713,7 +713,9 @@ func ruleCodecFidelity(c *Ctx, rule string) {
 		}
 		n++
 		okDec := false
-		allInstrs(side.recv, func(in ssa.Instruction) {
+		var decCall *ssa.Call
+		// (through a decode helper shared by both receive methods: its parameters stand for this method's arguments)
+		w.instrsThroughHelpers(side.recv, func(in ssa.Instruction) {
 			call, ok := in.(*ssa.Call)
 			if !ok {
 				return
@@ -742,8 +744,15 @@ func ruleCodecFidelity(c *Ctx, rule string) {
 			}
 			if dataOK && msgOK {
 				okDec = true
+				decCall = call
 			}
 		})
+		// ... on every path that reports success: a receive method returns the decoder's own result, a provably non-nil
+		// error, or nil only behind a decode that succeeded (an "empty payload, nothing to decode" shortcut leaves the
+		// caller's message as it was and reports it as received)
+		if decCall != nil && side.recv.Signature.Results().Len() == 1 {
+			c.checkReportsTruth(rule, side.recv, decCall, "the decoder's result", "nil only after a successful decode", "the receive method returns nil on a path that did not decode the received bytes into the caller's message: the application is handed whatever the message value held before as if it had been received", "the receive method returns %s, which may be nil, on a path that did not decode the received bytes")
+		}
 		c.check(okDec, rule, w.Short(side.recv)+": decodes the reassembled bytes into the caller's message", posOf(w, side.recv), "proto.Unmarshal(data, m)", "the receive method does not decode exactly the bytes the read returned into the message the caller passed")
 		okEnc := false
 		var enc *ssa.Call
@@ -986,76 +995,7 @@ func ruleSendReportsTruth(c *Ctx, rule string) {
 			continue
 		}
 		n++
-		name := w.Short(root)
-		knownNonNil := func(v ssa.Value, at ssa.Instruction) bool {
-			if nn, _ := nonNilErrorPhiAware(v, at); nn {
-				return true
-			}
-			if nn, _ := nonNilError(origin(v), at, 0); nn {
-				return true
-			}
-			// a sticky error field tested non-nil on the way (another load of the same field, under the same mutex)
-			if fr, _, isF := loadedField(v); isF {
-				for _, f := range factsAt(at) {
-					if x, op, y, ok := cmpFact(f); ok && op == token.NEQ && isNilConst(y) {
-						if fr2, _, isF2 := loadedField(x); isF2 && fr2 == fr {
-							return true
-						}
-					}
-				}
-			}
-			return false
-		}
-		forEachReturnValue(root, 0, func(v ssa.Value, at ssa.Instruction) {
-			if !isNilConst(v) && !isErrorOfCall(v, call) && knownNonNil(v, at) {
-				// known non-nil as a whole (`if err := helper(); err != nil { return err }`): no need to look inside the helper
-				c.ok(rule, fmt.Sprintf("%s: result in block %d (%s)", name, at.Block().Index, shortDesc(v)), w.At(at), "provably non-nil error")
-				return
-			}
-			for _, vc := range valueCases(v, 3) {
-				leaf := vc.Val
-				key := fmt.Sprintf("%s: result in block %d (%s)", name, at.Block().Index, shortDesc(leaf))
-				if isErrorOfCall(leaf, call) {
-					// the sender's own result; where it is returned on the branch that found it nil, that is the success path
-					c.ok(rule, key, w.At(at), "the sender's result")
-					continue
-				}
-				if isNilConst(leaf) {
-					sent := false
-					for _, f := range append(append([]EdgeFact{}, vc.Facts...), factsAt(at)...) {
-						if x, op, y, ok := cmpFact(f); ok && op == token.EQL && isNilConst(y) && isErrorOfCall(x, call) {
-							sent = true
-						}
-					}
-					c.check(sent && dominates(call, at), rule, key, w.At(at), "nil only after the sender accepted the message", "the send method returns nil on a path that did not hand the message to the sender (or did not find the sender's result nil): the application is told a message was sent that never reached the wire — the peer's sequence is short although this side saw success")
-					continue
-				}
-				nonNil := knownNonNil(leaf, at)
-				for _, f := range vc.Facts { // tested non-nil inside the helper that returned it
-					if x, op, y, ok := cmpFact(f); ok && op == token.NEQ && isNilConst(y) && (stripConv(x) == stripConv(leaf) || origin(x) == origin(leaf)) {
-						nonNil = true
-					}
-				}
-				if li, isI := stripConv(leaf).(ssa.Instruction); isI && !nonNil && li.Parent() != at.Parent() {
-					// judged where the helper returns it
-					nRet, allNN := 0, true
-					for _, ret := range returnsOf(li.Parent()) {
-						for _, r := range ret.Results {
-							if stripConv(r) == stripConv(leaf) {
-								nRet++
-								if !knownNonNil(leaf, ret) {
-									allNN = false
-								}
-							}
-						}
-					}
-					if nRet > 0 && allNN {
-						nonNil = true
-					}
-				}
-				c.check(nonNil, rule, key, w.At(at), "provably non-nil error", "the send method returns "+desc(leaf)+", which may be nil, on a path other than the successful send: a message that was not sent may be reported as sent")
-			}
-		})
+		c.checkReportsTruth(rule, root, call, "the sender's result", "nil only after the sender accepted the message", "the send method returns nil on a path that did not hand the message to the sender (or did not find the sender's result nil): the application is told a message was sent that never reached the wire — the peer's sequence is short although this side saw success", "the send method returns %s, which may be nil, on a path other than the successful send: a message that was not sent may be reported as sent")
 	}
 	c.floor(rule, n, 2, "send methods (client, server)")
 }
@@ -1205,4 +1145,80 @@ func ruleSetHeaderOnlyRecords(c *Ctx, rule string) {
 	scan(set, 0)
 	scan(send, 0)
 	c.floor(rule, n, 1, "refusal returns of the header-setting methods")
+}
+
+// checkReportsTruth: every return of root (an error-returning method) yields the result of `call` itself, a provably
+// non-nil error, or nil on a path that passed `call` with its result known nil.
+func (c *Ctx) checkReportsTruth(rule string, root *ssa.Function, call *ssa.Call, okOwn, okNil, whyNil, whyMaybe string) {
+	w := c.W
+	name := w.Short(root)
+	knownNonNil := func(v ssa.Value, at ssa.Instruction) bool {
+		if nn, _ := nonNilErrorPhiAware(v, at); nn {
+			return true
+		}
+		if nn, _ := nonNilError(origin(v), at, 0); nn {
+			return true
+		}
+		// a sticky error field tested non-nil on the way (another load of the same field, under the same mutex)
+		if fr, _, isF := loadedField(v); isF {
+			for _, f := range factsAt(at) {
+				if x, op, y, ok := cmpFact(f); ok && op == token.NEQ && isNilConst(y) {
+					if fr2, _, isF2 := loadedField(x); isF2 && fr2 == fr {
+						return true
+					}
+				}
+			}
+		}
+		return false
+	}
+	forEachReturnValue(root, 0, func(v ssa.Value, at ssa.Instruction) {
+		if !isNilConst(v) && !isErrorOfCall(v, call) && knownNonNil(v, at) {
+			// known non-nil as a whole (`if err := helper(); err != nil { return err }`): no need to look inside the helper
+			c.ok(rule, fmt.Sprintf("%s: result in block %d (%s)", name, at.Block().Index, shortDesc(v)), w.At(at), "provably non-nil error")
+			return
+		}
+		for _, vc := range valueCases(v, 3) {
+			leaf := vc.Val
+			key := fmt.Sprintf("%s: result in block %d (%s)", name, at.Block().Index, shortDesc(leaf))
+			if isErrorOfCall(leaf, call) {
+				// the sender's own result; where it is returned on the branch that found it nil, that is the success path
+				c.ok(rule, key, w.At(at), okOwn)
+				continue
+			}
+			if isNilConst(leaf) {
+				sent := false
+				for _, f := range append(append([]EdgeFact{}, vc.Facts...), factsAt(at)...) {
+					if x, op, y, ok := cmpFact(f); ok && op == token.EQL && isNilConst(y) && isErrorOfCall(x, call) {
+						sent = true
+					}
+				}
+				c.check(sent && dominates(call, at), rule, key, w.At(at), okNil, whyNil)
+				continue
+			}
+			nonNil := knownNonNil(leaf, at)
+			for _, f := range vc.Facts { // tested non-nil inside the helper that returned it
+				if x, op, y, ok := cmpFact(f); ok && op == token.NEQ && isNilConst(y) && (stripConv(x) == stripConv(leaf) || origin(x) == origin(leaf)) {
+					nonNil = true
+				}
+			}
+			if li, isI := stripConv(leaf).(ssa.Instruction); isI && !nonNil && li.Parent() != at.Parent() {
+				// judged where the helper returns it
+				nRet, allNN := 0, true
+				for _, ret := range returnsOf(li.Parent()) {
+					for _, r := range ret.Results {
+						if stripConv(r) == stripConv(leaf) {
+							nRet++
+							if !knownNonNil(leaf, ret) {
+								allNN = false
+							}
+						}
+					}
+				}
+				if nRet > 0 && allNN {
+					nonNil = true
+				}
+			}
+			c.check(nonNil, rule, key, w.At(at), "provably non-nil error", fmt.Sprintf(whyMaybe, desc(leaf)))
+		}
+	})
 }
